@@ -489,3 +489,12 @@ func stripLine(site string) string {
 	}
 	return site
 }
+
+func sortedInts[V any](m map[int]V) []int {
+	var ks []int
+	for k := range m {
+		ks = append(ks, k)
+	}
+	sort.Ints(ks)
+	return ks
+}
